@@ -9,6 +9,8 @@
 //!   measured RNG stream positions: minimum inertia, centroids and counts of the best run.
 //! * `assign`     — any initialiser/configuration: structure of the model, arg-min of `predict`
 //!   (batch and single row) and `transform` on training, fresh and adversarial points.
+//! * `para_box`   — `assign` on the KMeans|| stratum: dispersed cloud with the origin outside its
+//!   bounding box in one feature, budgets 1..=2 (a start centroid that is not a data row stays visible).
 //! * `large`      — the same on hundreds/thousands of rows (parallel assignment really splits).
 
 pub mod cases;
@@ -21,7 +23,7 @@ use vengine::{prop_sub, Property, Tier};
 pub fn property() -> Property {
     Property {
         id: "C09",
-        rule: "cases = (dataset: separated blobs | overlapping cloud | few distinct points repeated | integer lattice, n 1..=80 (200 thorough; 600/2000 in `large`), \
+        rule: "cases = (dataset: separated blobs | overlapping cloud | few distinct points repeated | integer lattice | (para_box) dispersed cloud with a bias column / unit box [1,2]^p, n 1..=80 (200 thorough; 600/2000 in `large`), \
                p 1..=4, f32|f64, coordinates scaled by 1, 2^10 or 2^-10; k 1..=min(n,6); metric L2|L1|Linf; init Random|KMeans++|KMeans|||Precomputed (data rows with repeats, \
                free values possibly outside the data, half-integer offsets); memory layout of records / precomputed centroids / query batches row-major|column-major|strided; budget 1..=12 or 300; tolerance never|1e-4|1e-1; n_runs 1..=4; seed; fresh queries). \
                Non-trivial: trajectory = at least two Lloyd steps that change the assignment, or an exact tie in an assignment step, or duplicate points; \
@@ -51,6 +53,9 @@ pub fn property() -> Property {
             prop_sub("assign", 60000, 600000, |t: Tier| cases::assign_case(t), checks::check_assign)
                 .chunks(16)
                 .require(&["precomputed_column_major", "model_centroids_not_row_major", "records_column_major", "row_major_twin_compared", "exact_tie_query", "init_para", "fewer_distinct_points_than_k", "fresh_queries"]),
+            prop_sub("para_box", 20000, 200000, |t: Tier| cases::para_box_case(t), checks::check_assign)
+                .chunks(16)
+                .require(&["para_small_budget_origin_outside_box", "data_dispersed_off_origin"]),
             prop_sub("large", 64, 300, |t: Tier| cases::large_case(t), checks::check_large).chunks(8),
         ],
     }
